@@ -520,12 +520,13 @@ func c05Timed(in *c05In, scale int) (Result, int) {
 	} else if run.books {
 		status2 = 1
 	}
-	buffered := n > 1 && rt.TD2 != 0
+	buffered := rt.TD2 != 0 // requiresBuffering: whenever the request can be retried
 	sig := fmt.Sprintf("retryt:%s:buffered=%v:chunked=%v", in.Policy, buffered, in.Chunked)
-	if n == 1 && rt.TD2 != 0 && rt.FT2 != 0 {
+	if n == 1 && rt.TD2 != 0 {
 		for _, e := range run.events {
 			if e.kind == "attempt" && e.rx == "RxClosed" {
-				// the single-host pool is not buffered: a second forward finds the body closed
+				// the defect repaired under F-C05-2 (a single-host pool was not buffered, a second
+				// forward found the body closed): its own class, so that a regression is reported as that
 				sig = "retryt:single-host:body-not-replayed"
 			}
 		}
